@@ -4,6 +4,7 @@ C04 — only freshly verified objects are handed out; errors surface exactly.
 Property theorems only; helper lemmas live in `Lemmas/`.
 -/
 import DeadpoolVerif.Lemmas.Reach
+import DeadpoolVerif.Lemmas.LastEv
 import DeadpoolVerif.Lemmas.LogMono
 
 namespace DeadpoolVerif
@@ -175,5 +176,44 @@ theorem C04_error_variants (cfg : Cfg) (acts : List Action) :
       subst e
       have := hg rfl
       cases x <;> simp_all [resultCause, Op.isGet]
+
+/-- **C04 (trace level: what stands before a hand-out).** In the event log of *any* history,
+every hand-out to operation `i` is immediately preceded — among the events of that operation —
+by the call of the **last** callback of the recycle sequence on the same object (its metrics
+as they were before this hand-out: `handouts` and `recycle_count` one lower, same creation
+instant), or by the call of the last `post_create` hook on the freshly created object, or, if
+there is no `post_create` hook, by the creation itself.  Together with
+`C04_recycle_sequence_in_order` / `C04_post_create_in_order` (a callback is entered only when
+the previous one answered ok) this is the property's "every step succeeding, in registration
+order" read off the log. -/
+theorem C04_handout_preceded_by_last_check (cfg : Cfg) (acts : List Action) (i : Nat) (o' : Obj)
+    (l1 l2 : List Ev)
+    (h : evsOf i (run (init cfg) acts).log = l1 ++ Ev.handout i o' :: l2) :
+    ∃ l0 e, l1 = l0 ++ [e] ∧ HandoutCause cfg i e o' := by
+  have t := (run_tr cfg acts).hand i o' l1 l2 h
+  rw [run_cfg] at t
+  exact t
+
+/-- **C04 (trace level: inside a callback).** In every reachable state, the last event logged
+by a get() that is inside a callback is the call of exactly that callback, on the object it
+has in hand: nothing of that get() happens between entering a check and its answer. -/
+theorem C04_inside_callback (cfg : Cfg) (acts : List Action) (i : Nat) (op : Op) (e : Ev)
+    (hop : (run (init cfg) acts).ops[i]? = some op) (he : op.lastEv cfg i = some e) :
+    (evsOf i (run (init cfg) acts).log).getLast? = some e := by
+  have t := (run_tr cfg acts).last i op e hop
+  rw [run_cfg] at t
+  exact t he
+
+/-- both are about something: a get that recycles an idle object through one pre hook and
+`Manager::recycle` -/
+example :
+    let cfg : Cfg := { maxSize := 1, pre := [false] }
+    let acts : List Action :=
+      [ .start (.get {}), .step 0 .run, .step 0 .run, .step 0 .run, .step 0 .ok, .step 0 .run,
+        .start (.ret 0), .step 1 .run, .step 1 .run, .step 1 .run,
+        .start (.get {}), .step 2 .run, .step 2 .run, .step 2 .run, .step 2 .ok, .step 2 .ok ]
+    (evsOf 2 (run (init cfg) acts).log).length = 4 ∧
+    (evsOf 2 (run (init cfg) acts).log)[2]?.map Ev.isHandout = some true := by
+  decide
 
 end DeadpoolVerif
